@@ -31,6 +31,7 @@ RULE = (
     "history mutates an original argument container or derives an updated copy, or the pair is "
     "of the same class"
 )
+RULE += ' Rounds 10-13: LONG containers (16-300 elements) for 11 classes; containers passed to updated() mutated afterwards; re-entrant construction / update through a lazy sequence building instances of the same class.'
 ASSUMPTIONS = [
     "attributes annotated Any are not used (the conversion clause is about declared containers)",
     "object.__setattr__ abuse is out of scope",
